@@ -18,7 +18,12 @@ type c16 struct{}
 
 func init() { engine.Register(c16{}) }
 
-func (c16) PostGenerate(r *engine.Rand, sc *engine.Scenario) { chooseEnv(r, sc) }
+func (c16) PostGenerate(r *engine.Rand, sc *engine.Scenario) {
+	chooseEnv(r, sc)
+	if r.Chance(1, 3) {
+		addOtherUnitEvents(r, sc, exclDMA)
+	}
+}
 
 func (c16) ID() string { return "C16" }
 
@@ -267,6 +272,9 @@ func (c16) Execute(sc *engine.Scenario) *engine.Result {
 		for ei < len(sc.Events) && t0+sc.Events[ei].At <= m.N {
 			ev := sc.Events[ei]
 			ei++
+			if applyOther(m, &ev, res) {
+				continue
+			}
 			switch ev.S {
 			case "dma":
 				if running {
